@@ -5,7 +5,7 @@ import statsmodels.api as sm
 import torch
 
 from leaspy.io.outputs import IndividualParameters
-from leaspy.utils.typing import DictParamsTorch
+from leaspy.utils.typing import DictParamsTorch, KwargsType
 
 from .stateless import StatelessModel
 
@@ -84,6 +84,16 @@ class LMEModel(StatelessModel):
         super().__init__(name, **kwargs)
         self.with_random_slope_age = with_random_slope_age
         self.dimension = 1
+
+    def to_dict(self, **kwargs) -> KwargsType:
+        """Export model as a dictionary ready for export.
+
+        The ``with_random_slope_age`` keyword is part of it, so that :meth:`load`
+        re-creates a model with the same random-effects structure.
+        """
+        model_settings = super().to_dict(**kwargs)
+        model_settings["with_random_slope_age"] = self.with_random_slope_age
+        return model_settings
 
     @property
     def hyperparameters(self) -> DictParamsTorch:
